@@ -33,6 +33,33 @@ def c02(tr, sem=None):
     return []
 
 
+def hang(pid, tr, sem):
+    """a run that hangs (the stepping loop is idle, nothing is outstanding, run() is pending) inside the fragment where the
+    dataflow semantics is defined is a failing input of every property that promises a consumer, or the caller, its value:
+    C01 (there is no outcome at all), C05 (a failure is never reported), C09 / C10 / C11 (the consumer of the switch /
+    one-of / recurrent subgraph never receives the value).  `sem` is None outside the fragment."""
+    if tr['verdict'] != 'deadlock' or sem is None or cancel_requested(tr):
+        return []
+    g = tr['graph']
+    what = None
+    if pid == 'C01':
+        what = f'the run hangs; the dataflow semantics gives {sem["outcome"]}'
+    elif pid == 'C05' and not sem['outcome'].startswith('value'):
+        what = f'the run hangs instead of reporting the failure {sem["causes"]}'
+    elif pid == 'C09' and any(n['is_switch'] for n in g['nodes']):
+        what = 'the run hangs: a consumer of a switch never receives the value of the selected case'
+    elif pid == 'C10' and any(n['is_oneof_head'] for n in g['nodes']):
+        what = 'the run hangs: the consumer of a one-of never receives the value of a successful candidate'
+    elif pid == 'C11' and any(n['start_node'] is not None for n in g['nodes']):
+        what = 'the run hangs: the consumers of a recurrent subgraph never receive its final result'
+    if what is None:
+        return []
+    started = {o[2] for _, o in _obs(tr, ('body',))}
+    demanded = [n for n in sem.get('demanded', []) if n not in started and
+                any(x['id'] == n and x['in_map'] for x in g['nodes'])]
+    return [what + f' (semantics: {sem["outcome"]}; needed nodes never started: {sorted(demanded)})']
+
+
 # ------------------------------------------------------------------------------------------- C05 / C01
 def c05(tr, sem=None):
     v = []
@@ -329,6 +356,18 @@ def c19(tr, sem=None):
         for n in valued - recdest:      # (a destination's on_node_complete(None) may belong to a Recurrent marker)
             if n not in saves:
                 v.append(f'node {n} produced a value that was never saved')
+        if 'saved_completed' in tr and not has_rec:
+            # a value that was delivered to a consumer (or returned) has been saved: the write ran to completion, it was
+            # not merely started and then cancelled with the rest of the run
+            done = {i for rid, i in tr['saved_completed'] if rid == 0}
+            ordinary = {n['id'] for n in tr['graph']['nodes'] if n['in_map']}
+            started = {o[2] for _, o in _obs(tr, ('body',))}
+            consumed = {e['u'] for e in tr['graph']['edges'] if e['kwarg'] and e['v'] in started and e['u'] in ordinary}
+            consumed.add(tr['graph']['output'])
+            for n in sorted((consumed & valued & ordinary) - recdest):
+                if n in saves and n not in done:
+                    v.append(f'the value of node {n} was delivered to its consumers but its save never completed '
+                             f'(it was started and cancelled)')
     return v
 
 
